@@ -1,9 +1,10 @@
 (* Extract/C04.v — extraction of the C04 model for the correspondence driver.
    Directives in force: only those of the two standard files required here. *)
 From Coq Require Extraction ExtrOcamlBasic ExtrOcamlZBigInt.
-From Verif Require Import Lib.Bytes Crypto.Secp256k1 Gen.GenNetworks Model.AddrEnc Model.KeyPoint.
+From Verif Require Import Lib.Bytes Crypto.Secp256k1 Gen.GenNetworks Model.SpecNetworks Model.AddrEnc Model.KeyPoint.
 Extraction Language OCaml.
 Extraction "../ocaml/c04_model.ml" bz zb all_networks nw_name
   lib_key_import_gen lib_public_point lib_public_uncompressed lib_public_compressed lib_public_byte
   lib_key_hash160 lib_key_address_args_gen lib_hdkey_address_args_gen lib_key_address_gen lib_hdkey_address_gen lib_address lib_mod_sqrt lib_decompress_y
-  spec_address spec_valid_secret spec_valid_public secp_pub.
+  spec_address spec_valid_secret spec_valid_public secp_pub
+  spec_networks ref_networks frozen_address frozen_p2tr frozen_address_by_name spec_find.
